@@ -130,6 +130,7 @@ public:
     }
     Real getValue(const State& s) const override { return f(s); }
     void handleEvent(State& s, Real, bool& shouldTerminate) const override {
+        shouldTerminate = false;      // every harness handler states its own answer explicitly; only its action may ask for termination
         log->ev.push_back({1, id, s.getTime(), f(s)});
         if (action) action(s, shouldTerminate);
     }
@@ -145,6 +146,7 @@ public:
         return Infinity;
     }
     void handleEvent(State& s, Real, bool& shouldTerminate) const override {
+        shouldTerminate = false;
         log->ev.push_back({2, id, s.getTime(), 0});
         if (action) action(s, shouldTerminate);
     }
@@ -155,7 +157,7 @@ public:
 class PerHandler : public PeriodicEventHandler {
 public:
     PerHandler(int id, double interval, HLog* log) : PeriodicEventHandler(interval), id(id), log(log) {}
-    void handleEvent(State& s, Real, bool& shouldTerminate) const override { log->ev.push_back({3, id, s.getTime(), 0}); if (action) action(s, shouldTerminate); }
+    void handleEvent(State& s, Real, bool& shouldTerminate) const override { shouldTerminate = false; log->ev.push_back({3, id, s.getTime(), 0}); if (action) action(s, shouldTerminate); }
     std::function<void(State&, bool&)> action;
     int id; HLog* log;
 };
